@@ -126,7 +126,8 @@ Record task := mkT {
   t_id : N; t_peer : peer; t_alive : bool;
   t_shut : bool;             (* the shutdown sender was used or dropped *)
   t_in : sub; t_out : sub;
-  t_q : list frame           (* sync_rx *)
+  t_q : list frame;          (* sync_rx *)
+  t_fwd : list frame         (* ghost: frames it handed to the channel of the NotificationHandle *)
 }.
 
 Record st := mkSt {
@@ -222,7 +223,8 @@ Definition set_stuck (s : st) : st :=
 
 Definition push_ev (s : st) (e : hev) : st := set_evq s (evq s ++ [e]).
 Definition bury (s : st) (x : sub) : st := set_grave s (grave s ++ [x]).
-Definition bury_opt (s : st) (x : option hent) : st := match x with Some e => bury s (e_sub e) | None => s end.
+Definition bury_opt (s : st) (x : option hent) : st :=
+  set_grave s (grave s ++ match x with Some e => [e_sub e] | None => [] end).
 
 (* substreams held inside a peer state (dropped when the state is overwritten) *)
 Definition inb_subs (i : inb) : list sub := match i with IValidating s _ | IOpen s => [s] | _ => [] end.
@@ -240,32 +242,38 @@ Definition rem_in (fx : bool) (s : st) (p : peer) : st :=
   set_hs (bury_opt s (hin s p)) (upd (hin s) p None) (hout s) (purge fx p false (ready s)).
 Definition rem_out (fx : bool) (s : st) (p : peer) : st :=
   set_hs (bury_opt s (hout s p)) (hin s) (upd (hout s) p None) (purge fx p true (ready s)).
-(* HashMap::insert: a replaced substream is dropped *)
-Definition ins_in (s : st) (p : peer) (e : hent) : st :=
-  set_hs (bury_opt s (hin s p)) (upd (hin s) p (Some e)) (hout s) (ready s).
-Definition ins_out (s : st) (p : peer) (e : hent) : st :=
-  set_hs (bury_opt s (hout s p)) (hin s) (upd (hout s) p (Some e)) (ready s).
+(* negotiate_outbound / read_handshake / send_handshake: HashMap::insert (a replaced substream is dropped); the
+   repaired code forgets what was queued for the key *)
+Definition ins_in (fx : bool) (s : st) (p : peer) (e : hent) : st :=
+  set_hs (bury_opt s (hin s p)) (upd (hin s) p (Some e)) (hout s) (purge fx p false (ready s)).
+Definition ins_out (fx : bool) (s : st) (p : peer) (e : hent) : st :=
+  set_hs (bury_opt s (hout s p)) (hin s) (upd (hout s) p (Some e)) (purge fx p true (ready s)).
 
-Definition kpeer (k : N) : peer := k / 2.
-Definition kout (k : N) : bool := N.odd k.
 Definition hget (s : st) (p : peer) (out : bool) : option hent := if out then hout s p else hin s p.
 Definition hput (s : st) (p : peer) (out : bool) (v : option hent) : st :=
   if out then set_hs s (hin s) (upd (hout s) p v) (ready s) else set_hs s (upd (hin s) p v) (hout s) (ready s).
 
-(* the loop of poll_next over the map, in the order `ord` *)
-Fixpoint visit (s : st) (ord : list N) : st * option N :=
+(* the first entry of `ready` for a key *)
+Fixpoint rfind (p : peer) (o : bool) (r : list (peer * bool * frame)) : option frame :=
+  match r with
+  | [] => None
+  | e :: t => if key_is p o e then Some (snd e) else rfind p o t
+  end.
+
+(* the loop of poll_next over the map, in the order `ord` (keys: peer, outbound?). The map is visited once per key:
+   a key whose result was queued in this loop is not visited again. *)
+Fixpoint visit (s : st) (ord : list (peer * bool)) : st * option (peer * bool) :=
   match ord with
   | [] => (s, None)
-  | k :: t =>
-      let p := kpeer k in let o := kout k in
-      match hget s p o with
-      | None => visit s t
-      | Some e =>
+  | (p, o) :: t =>
+      match hget s p o, rfind p o (ready s) with
+      | Some e, None =>
           match visit1 o e with
-          | VErr e' => (hput s p o (Some e'), Some k)
+          | VErr e' => (hput s p o (Some e'), Some (p, o))
           | VNeg e' h => let s1 := hput s p o (Some e') in visit (set_hs s1 (hin s1) (hout s1) (ready s1 ++ [(p, o, h)])) t
           | VWait e' => visit (hput s p o (Some e')) t
           end
+      | _, _ => visit s t
       end
   end.
 
@@ -281,14 +289,14 @@ Inductive pres := PPending | PNeg (p : peer) (out : bool) (h : frame) (x : sub) 
 Definition hs_empty (s : st) : bool :=
   forallb (fun p => match hin s p, hout s p with None, None => true | _, _ => false end) PEERS.
 
-Definition hs_poll (s : st) (ord : list N) : st * pres :=
+Definition hs_poll (s : st) (ord : list (peer * bool)) : st * pres :=
   match pop s (ready s) with
   | (Some (p, o, h, e), r) => (set_hs (hput s p o None) (hin (hput s p o None)) (hout (hput s p o None)) r, PNeg p o h (e_sub e))
   | (None, r) =>
       let s0 := set_hs s (hin s) (hout s) r in
       if hs_empty s0 then (s0, PPending) else
       match visit s0 ord with
-      | (s1, Some k) => (s1, PErr (kpeer k) (kout k))
+      | (s1, Some (p, o)) => (s1, PErr p o)
       | (s1, None) =>
           match ready s1 with
           | (p, o, h) :: t =>
@@ -324,7 +332,7 @@ Fixpoint find_task (k : N) (l : list task) : option task :=
   match l with [] => None | t :: r => if t_id t =? k then Some t else find_task k r end.
 (* the shutdown sender towards task k is used or dropped *)
 Definition signal (s : st) (k : N) : st :=
-  set_tasks s (map_task k (fun t => mkT (t_id t) (t_peer t) (t_alive t) true (t_in t) (t_out t) (t_q t)) (tasks s)).
+  set_tasks s (map_task k (fun t => mkT (t_id t) (t_peer t) (t_alive t) true (t_in t) (t_out t) (t_q t) (t_fwd t)) (tasks s)).
 Definition task_closed (s : st) (k : N) : bool :=
   match find_task k (tasks s) with Some t => negb (t_alive t) | None => true end.
 Definition ntasks (s : st) : N := N.of_nat (length (tasks s)).
@@ -380,9 +388,9 @@ Definition on_closed (fx : bool) (s : st) (p : peer) : st :=
       end
   end.
 
-Definition neg_out (s : st) (p : peer) (x : sub) : st := ins_out s p (mkE SSend x).
+Definition neg_out (fx : bool) (s : st) (p : peer) (x : sub) : st := ins_out fx s p (mkE SSend x).
 
-Definition on_sub_out (s : st) (p : peer) (x : sid) (y : sub) : st :=
+Definition on_sub_out (fx : bool) (s : st) (p : peer) (x : sid) (y : sub) : st :=
   match ps s p with
   | None => set_stuck (bury s y)
   | Some stt =>
@@ -391,14 +399,14 @@ Definition on_sub_out (s : st) (p : peer) (x : sid) (y : sub) : st :=
       match stt with
       | OutInit z =>
           if (z =? x) && (match pp with Some q => q =? p | None => false end)
-          then set_ps (neg_out s p y) p (Some (Validating true ONeg IClosed))
+          then set_ps (neg_out fx s p y) p (Some (Validating true ONeg IClosed))
           else set_stuck (bury s y)
       | Validating d o i =>
           match i with
-          | ISending | IOpen _ => set_ps (neg_out s p y) p (Some (Validating d ONeg i))
+          | ISending | IOpen _ => set_ps (neg_out fx s p y) p (Some (Validating d ONeg i))
           | _ =>
               match o with
-              | OInit z => if z =? x then set_ps (neg_out s p y) p (Some (Validating d ONeg i)) else set_stuck (bury s y)
+              | OInit z => if z =? x then set_ps (neg_out fx s p y) p (Some (Validating d ONeg i)) else set_stuck (bury s y)
               | _ => set_stuck (bury s y)
               end
           end
@@ -407,15 +415,15 @@ Definition on_sub_out (s : st) (p : peer) (x : sid) (y : sub) : st :=
       end
   end.
 
-Definition read_hs (s : st) (p : peer) (y : sub) : st := ins_in s p (mkE SRead y).
-Definition send_hs (s : st) (p : peer) (y : sub) : st := ins_in s p (mkE SSend y).
+Definition read_hs (fx : bool) (s : st) (p : peer) (y : sub) : st := ins_in fx s p (mkE SRead y).
+Definition send_hs (fx : bool) (s : st) (p : peer) (y : sub) : st := ins_in fx s p (mkE SSend y).
 
-Definition on_sub_in (s : st) (p : peer) (y : sub) : st :=
+Definition on_sub_in (fx : bool) (s : st) (p : peer) (y : sub) : st :=
   match ps s p with
   | None => set_stuck (bury s y)
-  | Some (Closed None) => set_ps (read_hs s p y) p (Some (Validating false OClosed IReading))
-  | Some (Validating d o IClosed) => set_ps (read_hs s p y) p (Some (Validating d o IReading))
-  | Some (OutInit x) => set_ps (read_hs s p y) p (Some (Validating true (OInit x) IReading))
+  | Some (Closed None) => set_ps (read_hs fx s p y) p (Some (Validating false OClosed IReading))
+  | Some (Validating d o IClosed) => set_ps (read_hs fx s p y) p (Some (Validating d o IReading))
+  | Some (OutInit x) => set_ps (read_hs fx s p y) p (Some (Validating true (OInit x) IReading))
   | Some (Validating _ OClosed (IValidating y0 _)) => set_ps (bury (bury s y) y0) p (Some (VPending true))
   | Some _ => bury s y
   end.
@@ -459,11 +467,11 @@ Definition on_validation (fx : bool) (s : st) (p : peer) (accept : bool) : st * 
         | OClosed =>
             match svc_open s p with
             | (s1, Some x) =>
-                (set_ps (set_pend (send_hs s1 p y) (pend_insert x p (pend s1))) p (Some (Validating d (OInit x) ISending)),
+                (set_ps (set_pend (send_hs fx s1 p y) (pend_insert x p (pend s1))) p (Some (Validating d (OInit x) ISending)),
                  [(1, p, x)])
             | (s1, None) => (push_ev (set_ps (bury s1 y) p (Some (Closed None))) (HFail p E_REJECTED), [])
             end
-        | _ => (set_ps (send_hs s p y) p (Some (Validating d o ISending)), [])
+        | _ => (set_ps (send_hs fx s p y) p (Some (Validating d o ISending)), [])
         end
       else (set_ps (bury_list (rem_in fx (rem_out fx (bury s y) p) p) (outb_subs o)) p (Some (Closed (pending_open o))), [])
   | Some (VPending b) =>
@@ -481,7 +489,7 @@ Definition hs_finish (s : st) (p : peer) : st :=
   match ps s p with
   | Some (Validating d (OOpen h so) (IOpen si)) =>
       let k := ntasks s in
-      let s1 := set_tasks s (tasks s ++ [mkT k p true false si so []]) in
+      let s1 := set_tasks s (tasks s ++ [mkT k p true false si so [] []]) in
       push_ev (set_ps s1 p (Some (Open k))) (HOpened p d h k)
   | _ => s     (* a 5 s timer is armed; it does not fire within a case *)
   end.
@@ -507,7 +515,7 @@ Definition on_hs_event (fx auto : bool) (s : st) (r : pres) : st :=
           match stt with
           | Validating d o IReading =>
               if negb (o_closed o) && auto
-              then set_ps (send_hs s p y) p (Some (Validating d o ISending))
+              then set_ps (send_hs fx s p y) p (Some (Validating d o ISending))
               else
                 let v := nvid s in
                 let s1 := set_vals s (vq s ++ [mkV v p None]) (vwait s) (v + 1) in
@@ -557,7 +565,7 @@ Definition vanswer (s : st) (id : N) (a : option bool) : st :=
   end.
 
 (* ---- one poll of next_event ---- *)
-Definition poll (fx auto : bool) (s : st) (ord : list N) : st * N * list call :=
+Definition poll (fx auto : bool) (s : st) (ord : list (peer * bool)) : st * N * list call :=
   (* 1: the handshake service, if its map is not empty *)
   let '(s, r) := if hs_empty s then (s, PPending) else hs_poll s ord in
   match r with
@@ -574,8 +582,8 @@ Definition poll (fx auto : bool) (s : st) (ord : list N) : st * N * list call :=
       (match e with
        | EvEst p => on_established (set_conn s p true) p
        | EvClosed p => on_closed fx (set_conn s p false) p
-       | EvIn p y => on_sub_in s p y
-       | EvOut p x y => on_sub_out s p x y
+       | EvIn p y => on_sub_in fx s p y
+       | EvOut p x y => on_sub_out fx s p x y
        | EvFail x => on_open_fail fx s x
        end, 1, [])
   | [] =>
@@ -598,7 +606,7 @@ Definition poll (fx auto : bool) (s : st) (ord : list N) : st * N * list call :=
 
 (* ---- one poll of a Connection task (no backpressure: few, small frames) ---- *)
 Definition close_task (s : st) (t : task) (notify : bool) : st :=
-  let s1 := set_tasks s (map_task (t_id t) (fun _ => mkT (t_id t) (t_peer t) false (t_shut t) (t_in t) (t_out t) (t_q t)) (tasks s)) in
+  let s1 := set_tasks s (map_task (t_id t) (fun _ => mkT (t_id t) (t_peer t) false (t_shut t) (t_in t) (t_out t) (t_q t) (t_fwd t)) (tasks s)) in
   let s2 := if notify then set_shq s1 (shq s1 ++ [t_peer t]) else s1 in
   push_ev s2 (HClosed (t_peer t) (Some (t_id t))).
 
@@ -609,10 +617,10 @@ Fixpoint task_loop (fuel : nat) (s : st) (t : task) : st * bool :=
       if t_shut t then (close_task s t false, true)
       else if s_werr (t_out t) then (close_task s t true, true)
       else
-        let t1 := mkT (t_id t) (t_peer t) true false (t_in t) (cn_write (t_out t) (t_q t)) [] in
+        let t1 := mkT (t_id t) (t_peer t) true false (t_in t) (cn_write (t_out t) (t_q t)) [] (t_fwd t) in
         match s_wire (t_in t1) with
         | fr :: w =>
-            let t2 := mkT (t_id t) (t_peer t) true false (cn_read (t_in t1) fr w) (t_out t1) [] in
+            let t2 := mkT (t_id t) (t_peer t) true false (cn_read (t_in t1) fr w) (t_out t1) [] (t_fwd t ++ [fr]) in
             task_loop f (set_nq (set_tasks s (map_task (t_id t) (fun _ => t2) (tasks s))) (nq s ++ [(t_peer t, t_id t, fr)])) t2
         | [] =>
             if s_eof (t_in t1) then (close_task (set_tasks s (map_task (t_id t) (fun _ => t1) (tasks s))) t1 true, true)
@@ -679,7 +687,7 @@ Definition map_hent (f : sub -> sub) (e : hent) : hent := mkE (e_stage e) (f (e_
 Definition map_sev (f : sub -> sub) (e : sev) : sev :=
   match e with EvIn p s => EvIn p (f s) | EvOut p x s => EvOut p x (f s) | y => y end.
 Definition map_tsk (f : sub -> sub) (t : task) : task :=
-  mkT (t_id t) (t_peer t) (t_alive t) (t_shut t) (f (t_in t)) (f (t_out t)) (t_q t).
+  mkT (t_id t) (t_peer t) (t_alive t) (t_shut t) (f (t_in t)) (f (t_out t)) (t_q t) (t_fwd t).
 
 Definition map_all (f : sub -> sub) (s : st) : st :=
   mkSt (fun p => option_map (map_pstate f) (ps s p)) (pend s)
@@ -691,7 +699,7 @@ Definition map_all (f : sub -> sub) (s : st) : st :=
 Inductive op :=
 | OEst (p : peer) | OClosed_ (p : peer) | OSubIn (p : peer) | OSubOut (p : peer) | OFail (p : peer)
 | OEnv (id : N) (x : envk)
-| OPoll (ord : list N)
+| OPoll (ord : list (peer * bool))
 | OUOpen (p : peer) | OUClose (p : peer) | OUVal (p : peer) (a : bool)
 | OTasks | OUPoll | OUSend (p : peer) (t : frame).
 
@@ -745,7 +753,7 @@ Definition step (fx auto : bool) (s : st) (o : op) : st * ores * list call :=
           | Some tk =>
               if t_alive tk
               then (set_tasks s (map_task k (fun t0 => mkT (t_id t0) (t_peer t0) (t_alive t0) (t_shut t0) (t_in t0) (t_out t0)
-                                                             (t_q t0 ++ [t])) (tasks s)), RCode 0, [])
+                                                             (t_q t0 ++ [t]) (t_fwd t0)) (tasks s)), RCode 0, [])
               else (s, RCode 1, [])
           | None => (s, RCode 1, [])
           end
